@@ -19,6 +19,17 @@ Proof. destruct (stop_timer_other s ot) as [_ [_ [_ [E _]]]]. exact E. Qed.
 Lemma routine_stop_timer s ot : routine (stop_timer s ot) = routine s.
 Proof. destruct (stop_timer_other s ot) as [_ [_ [E _]]]. exact E. Qed.
 
+Lemma bookkeep_dead s i : dead (bookkeep s i) = dead s.
+Proof.
+  unfold bookkeep. destruct (nth_error (insts s) i) as [x|]; [|reflexivity]. destruct (ipcv x); try reflexivity.
+  set (s0 := seti s i (with_pc x IDone)). destruct (rctx (getr s (irec x))) as [j|]; [|reflexivity]. destruct (Nat.eqb j i); [|reflexivity].
+  pose proof (dead_stop_timer s0 (rretry (getr s (irec x)))) as T.
+  destruct (bo s0) as [[l k]|]; [|reflexivity].
+  destruct (is_nil o); [exact T|].
+  destruct (match routine (stop_timer s0 (rretry (getr s (irec x)))) with Some r' => Nat.eqb r' (irec x) | None => false end); [|exact T].
+  destruct (nth_error l k); exact T.
+Qed.
+
 Section Book.
   Variables (s : st) (i : nat) (x : inst) (o : outcome).
   Hypothesis Hx : nth_error (insts s) i = Some x.
